@@ -126,14 +126,16 @@ void h_make_map_e(void)
 {
   uint8_t cmap[256]; bool inuse[256];
   V_IN(unsigned, q);
-  unsigned i, below = 0, total = 0;
-  V_ASSUME(q < 256);
-  for (i = 0; i < 256; i++) { uint8_t r; bool b = (r & 1) != 0; inuse[i] = b; if (b) { total++; if (i < q) below++; } }      /* proper bool values (collect() only ever stores true) */
+  unsigned i;
+  V_ASSUME(q < 255);
+  for (i = 0; i < 256; i++) { uint8_t r; inuse[i] = (r & 1) != 0; }      /* proper bool values (collect() only ever stores true) */
   unsigned n = make_map_e(cmap, inuse);
-  V_ASSERT(n == total, "make_map_e: returns the number of byte values in use");
-  V_ASSERT(cmap[q] == (uint8_t)below, "make_map_e: every byte value is mapped to the number of used values below it (ascending, gap-free numbering)");
-  if (total == 256) V_CANARY("all values used");
-  if (total == 1) V_CANARY("one value used");
+  /* local characterisation (defines the map by induction over the byte value; no 256-term sums for the solver) */
+  V_ASSERT(cmap[0] == 0, "make_map_e: numbering starts at 0");
+  V_ASSERT(cmap[q + 1] == (uint8_t)(cmap[q] + (inuse[q] ? 1 : 0)), "make_map_e: the number advances by one exactly after a used byte value (ascending, gap-free numbering)");
+  V_ASSERT(n == (unsigned)cmap[255] + (inuse[255] ? 1 : 0) || (n == 256 && cmap[255] == 255 && inuse[255]), "make_map_e: returns the number of byte values in use");
+  if (n == 256) V_CANARY("all values used");
+  if (n == 1) V_CANARY("one value used");
 }
 
 #ifdef VERIF_REPLAY
